@@ -141,7 +141,7 @@ def classify(ctx, mms, variant, sweep):
     """Mismatches are grouped by (kind, call, predicted, observed); inside a group the configuration with the fewest
     non-default fields is the representative and explains every mismatch whose configuration contains its deviation.
     Every representative is reproduced, attributed to a known finding if its predicate holds, else reported."""
-    handled = ctx.notes.setdefault('_handled', [])       # shared by all replay runs of this check; removed before evidence
+    handled = ctx.__dict__.setdefault('_c20_handled', [])       # shared by all replay runs of this check
     order = sorted(mms, key=lambda x: (len(deviation(cfg_at(x[1], x[0]))), x[0].get('step', 0), len(x[1])))
     for mm, beh in order:
         key = (mm.get('kind'), mm.get('a'), mm.get('exp'), mm.get('got'))
@@ -167,7 +167,16 @@ def classify(ctx, mms, variant, sweep):
             if k['id'] not in ctx.known_seen:
                 ctx.known_seen.append(k['id'])
             continue
-        path = save_replay(ctx, 'config', {'behaviour': beh, 'variant': variant, 'sweep': sweep, 'mismatch': mm})
+        if len(ctx.violations) >= 6:
+            continue
+        payload = {'behaviour': beh, 'variant': variant, 'sweep': sweep, 'mismatch': mm}
+        if uses_inf(beh):
+            # the same candidate's behaviour as generated under the other answer to "is +Inf accepted": used by --replay
+            # if the implementation has changed its (free) choice in the meantime
+            alt = ctx.__dict__.get('_c20_siblings', {}).get((json.dumps(beh[0]['cfg'], sort_keys=True), not beh[0].get('pol')))
+            if alt and len(beh) > 1 and [s['a'] for s in alt[:2]] == [s['a'] for s in beh[:2]]:
+                payload['behaviour_other_inf_policy'] = alt
+        path = save_replay(ctx, 'config', payload)
         ctx.violations.append({'what': f"step {mm.get('step')} {mm.get('a')}: {mm.get('kind')}: the specification predicts {mm.get('exp')!r}, "
                                        f"the code gives {mm.get('got')!r}; configuration = default except {json.dumps(dict(dev), sort_keys=True)} "
                                        f"(value variant {variant}) {mm.get('msg', '')}",
@@ -175,13 +184,24 @@ def classify(ctx, mms, variant, sweep):
 
 
 def replay_saved(ctx, payload):
-    mms, _ = replay(ctx, [payload['behaviour']], payload.get('variant', 0), payload.get('sweep', False), 'saved', procs=1)
+    beh = payload['behaviour']
+    if uses_inf(beh):
+        accept_inf = bool(json.loads(ctx.run_kvh(['config', '-probe']).stdout.strip().splitlines()[-1])['accept_inf'])
+        if beh[0].get('pol') != accept_inf:
+            beh = payload.get('behaviour_other_inf_policy')
+            if not beh:
+                raise Infra('the saved behaviour was generated for an implementation that %s a +Inf ratio; this one does not - '
+                            'run the check instead' % ('accepts' if not accept_inf else 'rejects'))
+    mms, _ = replay(ctx, [beh], payload.get('variant', 0), payload.get('sweep', False), 'saved', procs=1)
     return mms[0][0] if mms else None
 
 
 # ---------------------------------------------------------------------------------------------- binding self-test
 def selftest_binding(ctx, fields, damage):
-    """Each corrupted expectation must be noticed by the replay at exactly the corrupted step."""
+    """Each corrupted expectation must be noticed by the replay at exactly the corrupted step.  The behaviours are
+    taken from those the implementation CONFORMED to (so the corrupted prediction differs from what the code does);
+    on a defective implementation some cases may have no conforming behaviour - then the reported violations
+    themselves show that the binding notices disagreements."""
     cases = []
     for b in fields:            # 1: Validate's predicted verdict flipped
         if b[1]['a'] == 'validate' and b[1]['exp']['ok']:
@@ -212,12 +232,12 @@ def selftest_binding(ctx, fields, damage):
             c['WALSyncMode'] = 'none' if c['WALSyncMode'] != 'none' else 'batch'
             cases.append((b2, idx[0], 'opencfg'))
             break
-    if len(cases) < 4:
+    if len(cases) < 4 and not ctx.violations and not ctx.known_seen:
         raise Infra('binding self-test: no suitable behaviours')
     for n, (b2, step, kind) in enumerate(cases):
         mms, _ = replay(ctx, [b2], 0, False, f'selftest{n}', procs=1)
         if not mms or mms[0][0].get('step') != step or mms[0][0].get('kind') != kind:
-            raise Infra(f'binding self-test failed: corrupted expectation ({kind} at step {step}) was not noticed: {mms[:1]}')
+            raise Infra(f'binding self-test failed: corrupted expectation ({kind} at step {step}) was not noticed: {[m for m, _ in mms[:1]]}')
     ctx.notes['binding_selftest'] = 'corrupted expectations noticed: ' + ', '.join(f'{k}@{s}' for _, s, k in cases)
 
 
@@ -272,9 +292,10 @@ def check_C20(ctx):
     ctx.notes['validate_accepts_plus_inf'] = accept_inf
     fields = gen_exhaustive(ctx, 'GEN_Config_fields.cfg' if quick else 'GEN_Config_fields3.cfg', timeout=280 if quick else 1500)
     damage = gen_exhaustive(ctx, 'GEN_Config_damage.cfg')
-    life = tlc_sim(ctx, 'GEN_Config', 'GEN_Config_life.cfg', 300 if quick else 4000, 80, ctx.seed * 13 + 5, timeout=280 if quick else 1200,
+    life = tlc_sim(ctx, 'GEN_Config', 'GEN_Config_life.cfg', 300 if quick else 8000, 80, ctx.seed * 13 + 5, timeout=280 if quick else 1200,
                    tag='gen-life')
     n_all = len(fields) + len(damage) + len(life)
+    ctx._c20_siblings = {(json.dumps(b[0]['cfg'], sort_keys=True), b[0].get('pol')): b for b in fields if uses_inf(b)}
     fields = stamp(select_policy(fields, accept_inf), ctx.seed, 1)
     damage = stamp(select_policy(damage, accept_inf), ctx.seed, 2)
     life = stamp(select_policy(life, accept_inf), ctx.seed, 3)
@@ -283,40 +304,49 @@ def check_C20(ctx):
     note_nontrivial(ctx, fields + damage + life)
     ctx.samples = [brief(fields[len(fields) // 3]), brief(damage[len(damage) // 2]), brief(life[len(life) // 2])]
 
-    # 3. binding self-test
-    selftest_binding(ctx, fields, damage)
-
-    # 4. replay: field product under every value variant; damage with EVERY truncation length; life-cycle walks
+    # 3. replay: field product under every value variant; damage with EVERY truncation length; life-cycle walks
     variants = [0, 1] if quick else [0, 1, 2]
-    runs = [(fields, v, False, 'fields') for v in variants]
-    runs += [(damage, v, True, 'damage') for v in variants]
+    runs = [(damage, v, True, 'damage') for v in variants]
+    runs += [(fields, v, False, 'fields') for v in variants]
     runs += [(life, v, False, 'life') for v in variants]
     if not quick:
-        runs += [(life[:150], 0, True, 'lifesweep')]
+        runs += [(life[:400], 0, True, 'lifesweep')]
     truncs = opens = skipped = 0
     sweep_cov = {}
+    conformed = {'fields': [], 'damage': []}
     for behs, v, sweep, tag in runs:
         mms, oks = replay(ctx, behs, v, sweep, tag)
         ctx.traces += len(behs)
+        if v == 0 and tag in conformed:
+            conformed[tag] = [b for _, b in oks]
         for r, b in oks:
             truncs += r.get('truncs', 0)
             opens += r.get('opens', 0)
-            skipped += 1 if r.get('skipped') else 0
+            if r.get('skipped'):
+                skipped += 1
+                ctx.notes.setdefault('cut_short_reasons', [])
+                if len(ctx.notes['cut_short_reasons']) < 5:
+                    ctx.notes['cut_short_reasons'].append(r['skipped'])
             if tag == 'damage' and any(s['a'] == 'truncate' for s in b):
+                cls = [s['cls'] for s in b if s['a'] == 'truncate'][0]
                 key = (v, json.dumps(b[0]['cfg'], sort_keys=True))
-                cov = sweep_cov.setdefault(key, [0, r.get('mlen', 0)])
-                cov[0] += r.get('truncs', 0)
+                sweep_cov.setdefault(key, {})[cls] = (r.get('truncs', 0), r.get('nclass', 0), r.get('mlen', 0))
         classify(ctx, mms, v, sweep)
     ctx.evaluations = ctx.traces
-    ctx.notes.pop('_handled', None)
+    # 4. binding self-test on behaviours the implementation conformed to
+    selftest_binding(ctx, conformed['fields'], conformed['damage'])
     ctx.notes['truncation_lengths_exercised'] = truncs
     ctx.notes['engine_opens'] = opens
     ctx.notes['behaviours_cut_short'] = skipped
     # vacuity: every length 0..len of every base configuration's MANIFEST was tried (unless a violation cut the sweep short)
     if not ctx.violations and not ctx.unreproduced and not ctx.known_seen:
-        for (v, _), (n, mlen) in sweep_cov.items():
-            if mlen == 0 or n != mlen + 1:
-                raise Infra(f'truncation sweep incomplete: {n} lengths tried for a MANIFEST of {mlen} bytes (variant {v})')
+        for (v, _), per in sweep_cov.items():
+            # the harness's lexer puts every length 0..len into exactly one class; every class was asked for and every
+            # length of the class was tried
+            if set(per) != {'empty', 'instring', 'innumber', 'between', 'complete'} or \
+               any(n != ncls or ncls < 1 or mlen < 100 for n, ncls, mlen in per.values()) or \
+               sum(n for n, _, _ in per.values()) < min(m for _, _, m in per.values()) + 1:
+                raise Infra(f'truncation sweep incomplete (variant {v}): {per}')
         if not sweep_cov or opens < 100 or skipped > len(life) // 10:
             raise Infra(f'vacuous run: sweeps={len(sweep_cov)} opens={opens} cut short={skipped}')
     write_evidence(ctx, 'model_checking',
